@@ -12,12 +12,6 @@ Lemma orc_ev s : se0 (fst (oracle s)) = se0 s /\ swk (fst (oracle s)) = swk s /\
 Proof. unfold oracle. destruct (sorc s); repeat split. Qed.
 
 (* notify(1) without `additional`: nothing happens if an entry is already notified; otherwise at most one more *)
-Lemma notify1_count l : let '(l', ws) := ev_notify 1 false l in
-  N.of_nat (length ws) + cN l <= cN l' /\ (1 <= cN l -> cN l' = cN l) /\ (cN l = 0 -> cN l' <= 1).
-Proof.
-  pose proof (notify_count 1 false l) as M. destruct (ev_notify 1 false l) as [l' ws]. destruct M as (A & B & C). specialize (C eq_refl).
-  split; [exact A|]. split; intro H; lia.
-Qed.
 
 Lemma notify_ids n a s : map eid (se0 (notify E0 n a s)) = map eid (se0 s).
 Proof.
